@@ -217,10 +217,14 @@ def check_limits(net, res, opt, sn, tol, costs):
                 res.label("loading-limit-below-solver-resolution")
             if ld > lim + ltol:
                 cls = tab
-                if tab == "trafo":
-                    offn = abs(t.at[idx, "vn_hv_kv"] / net.bus.at[t.at[idx, "hv_bus"], "vn_kv"] - 1) > 1e-9 or \
-                        abs(t.at[idx, "vn_lv_kv"] / net.bus.at[t.at[idx, "lv_bus"], "vn_kv"] - 1) > 1e-9
-                    cls += "/off-nominal-vn" if offn else "/nominal-vn"
+                if tab in ("trafo", "trafo3w"):
+                    # known: the OPF limits the current in terms of the bus voltages (RATE_A = max_loading * sn_mva), loading_percent
+                    # is defined with the rated voltages of the transformer -> an excess up to the off-nominal ratio is the recorded
+                    # finding; anything beyond it is not
+                    sides = ("hv", "lv") if tab == "trafo" else ("hv", "mv", "lv")
+                    ratio = max(float(t.at[idx, "vn_%s_kv" % sd]) / float(net.bus.at[t.at[idx, sd + "_bus"], "vn_kv"]) for sd in sides)
+                    if ratio > 1 + 1e-9 and ld <= lim * ratio + ltol * ratio:
+                        cls += "/off-nominal-vn"
                 res.fail("loading/%s/%s" % (opt["mode"], cls), element=int(idx), loading_percent=ld, max_loading_percent=lim, tol=ltol)
             if abs(ld - lim) <= max(ltol, 1e-3 * lim):
                 binding.add("loading")
@@ -426,6 +430,8 @@ def check(case):
         elif dead_dc:
             res.fail("dcline-dead-terminal/crash", error=repr(e)[:300], where=what, opt=opt)
         else:
+            if what.endswith("totcost.py:totcost") and gen.is_costs_only_on_undispatched(case, net, maps):
+                what = "crash/costs-only-on-undispatched-elements"
             res.fail(what, error=repr(e)[:300], opt=opt)
         return res
     if not net.get("OPF_converged", False):
